@@ -11,7 +11,7 @@ Open Scope string_scope.
    file, for every tag of the old file that (a) holds a non-empty block and (b) is not emitted by the new fresh
    file -- and of nothing else (surviving tags and empty tags produce no entry). *)
 Theorem C03_lost_complete_and_only_lost : forall path (u : string -> list string) its fresh' its',
-  wfb its = true -> lines_okb (flatten its) = true -> (forall k, block_ok (u k) = true) ->
+  wfb its = true -> items_okb its = true -> (forall k, block_ok (u k) = true) ->
   parse_items fresh' = Some its' -> Forall (wf_fresh_item kof kpfx) its' ->
   snd (regen_file path fresh' (on_disk u its)) = lost_lines path u its its'.
 Proof. exact lost_complete. Qed.
